@@ -20,7 +20,7 @@ import (
 )
 
 var domainsPool = []string{"example.com", "a.com", "Example.COM", "sub.example.com", "b.org", "évil.com", "İ.com", "x@y.com", "com", "", "*.example.com", "*.a.com", ".example.com", "*example.com", "example.*"}
-var localPool = []string{"bob", "Bob", "ALICE", "a.b", "", "x+y", "ßig", "İx", "Σ"}
+var localPool = []string{"bob", "Bob", "ALICE", "a.b", "", "x+y", "ßig", "İx", "Σ", "\u212Aim", "İbrahim"}
 
 // bare strips wildcard-looking decorations, so look-alikes are also built from the undecorated name
 func bare(d string) string {
@@ -86,6 +86,17 @@ func genEmail(r *c.Rng, doms []string, addrs []string) string {
 			return r.Pick(localPool) + "@" + r.Pick(doms) + "."
 		}
 	case 10:
+		if len(doms) > 0 && r.Chance(0.7) {
+			// a local part whose lower-cased form is SHORTER in bytes (U+212A Kelvin: 3 -> 1, U+0130: 2 -> 1), in front
+			// of a look-alike domain whose extra prefix is exactly as long as the shrinkage (and the plain listed domain)
+			local := []string{"\u212Aim", "İb", "\u212A\u212A", "İİİx", "\u212Aİ"}[r.Intn(5)]
+			shrink := len(local) - len(strings.ToLower(local))
+			pre := "myevilxx"[:shrink%9]
+			if r.Chance(0.3) {
+				pre = ""
+			}
+			return local + "@" + pre + bare(r.Pick(doms))
+		}
 		return r.Pick(localPool) + "*"
 	case 11:
 		if len(doms) > 0 {
@@ -119,6 +130,22 @@ func genList(r *c.Rng, pool []string, allowEmpty bool) []string {
 	return l
 }
 
+type validator interface {
+	Validate(*sessions.SessionState) error
+}
+
+// safeValidate runs a validator of the code under test; a panic in it is recorded as a failed step of the code under
+// test (the run ends as a broken correspondence) and counted as a denial, so that the other cases are still judged
+func safeValidate(v validator, email string) (ok bool) {
+	defer func() {
+		if e := recover(); e != nil {
+			c.SetupFailed("validator panicked on e-mail %q: %v", email, e)
+			ok = false
+		}
+	}()
+	return v.Validate(&sessions.SessionState{Email: email}) == nil
+}
+
 func lowerTab(strs ...string) string {
 	seen := map[string]bool{}
 	var parts []string
@@ -138,7 +165,7 @@ func direct(r *c.Rng) c.Case {
 		rules := genList(r, addrPool, true)
 		email := genEmail(r, nil, rules)
 		v := validators.NewEmailAddressValidator(rules)
-		obs := v.Validate(&sessions.SessionState{Email: email}) == nil
+		obs := safeValidate(v, email)
 		all := append([]string{email}, rules...)
 		return c.Case{
 			Coq:  fmt.Sprintf("CAddr %s %s %s %s", lowerTab(all...), c.Strs(rules), c.Str(email), c.Bool(obs)),
@@ -148,7 +175,7 @@ func direct(r *c.Rng) c.Case {
 	rules := genList(r, domainsPool, true)
 	email := genEmail(r, rules, nil)
 	v := validators.NewEmailDomainValidator(rules)
-	obs := v.Validate(&sessions.SessionState{Email: email}) == nil
+	obs := safeValidate(v, email)
 	all := append([]string{email}, rules...)
 	return c.Case{
 		Coq:  fmt.Sprintf("CDom %s %s %s %s", lowerTab(all...), c.Strs(rules), c.Str(email), c.Bool(obs)),
@@ -193,7 +220,7 @@ func sweep(r *c.Rng) c.Case {
 			email = recase(r, r.Pick(sweepAddrs)) // often not listed
 		}
 		v := validators.NewEmailAddressValidator(rules)
-		obs := v.Validate(&sessions.SessionState{Email: email}) == nil
+		obs := safeValidate(v, email)
 		all := append([]string{email}, rules...)
 		return c.Case{
 			Coq:  fmt.Sprintf("CAddr %s %s %s %s", lowerTab(all...), c.Strs(rules), c.Str(email), c.Bool(obs)),
@@ -207,7 +234,7 @@ func sweep(r *c.Rng) c.Case {
 	}
 	email := r.Pick(localPool) + "@" + recase(r, d)
 	v := validators.NewEmailDomainValidator(rules)
-	obs := v.Validate(&sessions.SessionState{Email: email}) == nil
+	obs := safeValidate(v, email)
 	all := append([]string{email}, rules...)
 	return c.Case{
 		Coq:  fmt.Sprintf("CDom %s %s %s %s", lowerTab(all...), c.Strs(rules), c.Str(email), c.Bool(obs)),
